@@ -10,7 +10,7 @@ package kfake
 
 //@ func (s *pidwindow) pushAndValidate(epoch int16, firstSeq int32, numRecs int32, baseOffset int64) (ok bool, dup bool, dupOffset int64)
 //@   mode bv
-//@   prop C29
+//@   prop C29 C32
 //@   requires s != nil ==> s.count <= 5 && s.at < 5
 //@   requires 0 <= firstSeq && 0 <= numRecs
 //@   nopanic
